@@ -188,8 +188,16 @@ pub fn run(run: &mut Run) {
     let t = truncation_cases(run.seed_for("truncations"), run.tier.pick(150, 3000));
     run.enumerate("all-truncations", t.into_iter(), oracle);
     run.enumerate("nesting-boundary", nesting_boundary_cases().into_iter(), oracle);
+    if run.tier == crate::engine::Tier::Thorough {
+        // coverage-guided byte fuzzing of the same oracle (libFuzzer, structure-aware through fuzzde); see fuzzbridge.rs
+        crate::fuzzbridge::campaign(run, "c13", 3_000_000, 400);
+    }
+    if run.tier == crate::engine::Tier::Thorough {
+        // coverage-guided byte fuzzing of the same oracle (libFuzzer, structure-aware through fuzzde); see fuzzbridge.rs
+        crate::fuzzbridge::campaign(run, "decode", 3_000_000, 400);
+    }
 }
 
 pub fn replays() -> Vec<ReplayEntry> {
-    vec![replay_entry("differential", oracle), replay_entry("all-truncations", oracle), replay_entry("nesting-boundary", oracle)]
+    vec![replay_entry("fuzz:c13", crate::fuzzbridge::eval_input), replay_entry("fuzz:decode", crate::fuzzbridge::eval_input), replay_entry("differential", oracle), replay_entry("all-truncations", oracle), replay_entry("nesting-boundary", oracle)]
 }
